@@ -19,7 +19,7 @@ STEP_WORD = ["time.update", "release.update", "forcing.update", "output.update",
 
 
 def _update_words(prog: Program):
-    fi = prog.func("model.Model.update")
+    fi = prog.view("model.Model.update")
     ws = words(prog, fi, depth=3)
     return fi, ws
 
@@ -200,7 +200,9 @@ def trip_count(it: ast.expr, fn: ast.AST = None):
 
 
 def finish_analysis(prog: Program, rep: Report, rule: str = "R19.3") -> None:
-    fi = prog.func("model.Model.finish")
+    from ..program import inline_class_constants, inline_helpers
+
+    fi = inline_helpers(prog, inline_class_constants(prog, prog.func("model.Model.finish")))
     # roles whose default class (or a repo base) defines close
     need = []
     for role in prog.role_class:
@@ -285,24 +287,28 @@ def ctor_order_analysis(prog: Program, rep: Report, rule: str = "R19.4") -> None
         raise AnalysisError("Model.__init__: literal list module_names not found")
     rep.check(rule, "model.Model.__init__", f"module_names {order}", set(order) == set(prog.role_class) and len(order) == len(set(order)), what_bad=f"roles constructed {order} differ from init_module's table {sorted(prog.role_class)}", what_ok="all roles constructed once", loc="ladim/model.py")
     # the constructor loop passes self.modules and the role's own section
-    init = prog.func("model.Model.__init__")
+    init = prog.view("model.Model.__init__")
     found = False
+    loopvar = {}
     for node in walk_no_nested(init.node):
-        if isinstance(node, ast.For) and unparse(node.iter) == "module_names":
+        if isinstance(node, ast.For) and isinstance(node.target, ast.Name):
             for sub in ast.walk(node):
-                if isinstance(sub, ast.Call) and unparse(sub.func) == "init_module":
-                    found = True
-                    v = node.target.id if isinstance(node.target, ast.Name) else "?"
-                    args = [unparse(a) for a in sub.args]
-                    rep.check(
-                        rule,
-                        init.qual,
-                        short(sub),
-                        args[:3] == [v, f"config[{v}]", "self.modules"],
-                        what_bad=f"each role must be built from its own section and the shared registry, got {args}",
-                        what_ok="init_module(name, config[name], self.modules)",
-                        loc=init.loc(sub),
-                    )
+                loopvar[id(sub)] = node.target.id
+    for sub in walk_no_nested(init.node):
+        if isinstance(sub, ast.Call) and unparse(sub.func) == "init_module" and sub.args:
+            found = True
+            # the role: the loop variable, or (loop over the literal table unrolled) the literal itself
+            v = loopvar.get(id(sub)) or unparse(sub.args[0])
+            args = [unparse(a) for a in sub.args]
+            rep.check(
+                rule,
+                init.qual,
+                short(sub),
+                args[:3] == [v, f"config[{v}]", "self.modules"],
+                what_bad=f"each role must be built from its own section and the shared registry, got {args}",
+                what_ok="init_module(name, config[name], self.modules)",
+                loc=init.loc(sub),
+            )
     if not found:
         raise AnalysisError("Model.__init__: constructor loop over module_names not found")
     for role in order:
@@ -326,7 +332,9 @@ def ctor_order_analysis(prog: Program, rep: Report, rule: str = "R19.4") -> None
 
 
 def load_module_analysis(prog: Program, rep: Report, rule: str = "R19.5") -> None:
-    fi = prog.func("model.load_module")
+    from ..program import inline_helpers
+
+    fi = inline_helpers(prog, prog.func("model.load_module"))
     n_file = n_imp = 0
     for p in enumerate_paths(fi.node.body):
         calls = [unparse(c.func) for c in path_calls(p)]
@@ -384,7 +392,7 @@ def load_module_analysis(prog: Program, rep: Report, rule: str = "R19.5") -> Non
 
 
 def warm_block_analysis(prog: Program, rep: Report, step_word: list[str], rule: str = "R19.6") -> None:
-    init = prog.func("model.Model.__init__")
+    init = prog.view("model.Model.__init__")
     block = None
     for node in init.node.body:
         if isinstance(node, ast.If) and "warm_start" in unparse(node.test):
